@@ -533,7 +533,7 @@ fn cmd_strategy(args: &[String]) {
                                 if survivors > 0 && used_gap {
                                     nontrivial += 1;
                                 }
-                                if samples.len() < 3 && survivors > 0 && used_gap {
+                                if samples.len() < 3 && survivors > 1 && used_gap && add.iter().all(|a| a.size > 0) && pre.iter().filter(|p| p.shape.size > 0).count() >= 2 {
                                     samples.push(json!({"case": case_to_json(&case), "out": o.out, "offsets": o.offsets}));
                                 }
                                 let mut clauses = o.clauses.clone();
